@@ -453,7 +453,7 @@ class Item:
             raise LostAnchor("rename: identifier `%s` does not occur in the body of %s" % (old, self.path))
         self.log.append({"kind": "rename", "from": old, "to": new, "count": n, "why": why})
 
-    def enum_eq(self, prefix_src, count, why=""):
+    def enum_eq(self, prefix_src, count, why="", call=None):
         """`LHS == Prefix::Variant` / `LHS != Prefix::Variant` (derived PartialEq on a field-less enum) becomes
         `matches!(LHS, Prefix::Variant)` / `!matches!(..)` for every comparison whose right-hand side is a path
         starting with `prefix`.  The variant name is NOT part of the anchor, so changing it stays decidable.
@@ -496,18 +496,24 @@ class Item:
                 rhs = T[i + 1:end]
                 if not lhs:
                     raise LostAnchor("enum-eq: empty left-hand side in %s" % self.path)
-                head = tokenize(("!" if neg else "") + "matches!(")
+                if call:
+                    # value equality through a declared stand-in: call(&LHS, &RHS)
+                    head = tokenize(("!" if neg else "") + call + "(&")
+                    mid = [Tok("", ",", line), Tok(" ", "&", line)]
+                else:
+                    head = tokenize(("!" if neg else "") + "matches!(")
+                    mid = [Tok("", ",", line)]
                 for t in head:
                     t.line = line
                 head[0].ws = lhs[0].ws if lhs[0].ws else " "
                 lhs[0].ws = ""
-                T[start:end] = head + lhs + [Tok("", ",", line)] + rhs + [Tok("", ")", line)]
+                T[start:end] = head + lhs + mid + rhs + [Tok("", ")", line)]
                 n += 1
                 i = start
             i -= 1
         if n != count:
             raise LostAnchor("enum-eq: %d comparisons against `%s..` in %s, expected %d" % (n, " ".join(pre), self.path, count))
-        self.log.append({"kind": "abstract-op", "what": "enum-eq", "prefix": " ".join(pre), "count": n,
+        self.log.append({"kind": "abstract-op", "what": "enum-eq", "prefix": " ".join(pre), "count": n, "via": call or "matches!",
                          "why": why or "derived PartialEq on a field-less enum is variant equality"})
 
     def insert_at_signature(self, text):
